@@ -81,9 +81,67 @@ fn run_interleaved(re: &regress::Regex, hays: &[String], a: &Query, b: &Query) -
     (fnv64(engine::show_matches(&oa).as_bytes()), fnv64(engine::show_matches(&ob).as_bytes()))
 }
 
+/// The very first searches of the process, made concurrently: anything built lazily on first use
+/// (a table, a cache) is being built while other threads already rely on it. Every runner process
+/// starts with this, before it has searched anything; the results are compared with the same
+/// queries made sequentially afterwards.
+fn cold_start(rep: &mut Report) {
+    let battery: Vec<(&str, &str, &str)> = vec![
+        ("(\u{FF21})\\1", "i", "\u{FF21}\u{FF41}"), ("(.)\\1", "iu", "шШ"), ("(?<=(.)\\1)", "i", "éÉ"), ("[à-þ]+", "i", "ÀÉÞ"), ("\\b.\\b", "iu", "\u{17F}"), ("\\p{Lu}\\P{Lu}", "u", "Éé"),
+        ("[\\q{éa|b}]+", "iv", "ÉAb"), ("\\w+", "iu", "\u{212A}\u{17F}s"), ("(ǆ)\\1", "i", "ǆǅ"), ("[^\\W]", "iv", "\u{17F}"), ("(σ)\\1", "i", "σς"), ("\\p{Script=Greek}+", "u", "αβγ"),
+    ];
+    let battery: Arc<Vec<(String, Flags, String)>> = Arc::new(battery.into_iter().map(|(p, f, h)| (p.to_string(), Flags::from_str(f), h.to_string())).collect());
+    let nthreads = 8;
+    let barrier = Arc::new(std::sync::Barrier::new(nthreads));
+    let run_all = |battery: &Vec<(String, Flags, String)>, rotate: usize| -> Vec<(usize, u64)> {
+        let mut out = Vec::new();
+        for k in 0..battery.len() {
+            let i = (k + rotate) % battery.len();
+            let (p, f, h) = &battery[i];
+            let r = match regress::Regex::from_unicode(p.chars().map(|c| c as u32), engine::rflags(*f, false)) {
+                Ok(re) => {
+                    let ms: Vec<EMatch> = re.find_iter(h).take(50).map(|m| EMatch::from(&m)).collect();
+                    fnv64(engine::show_matches(&ms).as_bytes())
+                }
+                Err(_) => 0,
+            };
+            out.push((i, r));
+        }
+        out
+    };
+    let handles: Vec<_> = (0..nthreads)
+        .map(|t| {
+            let (battery, barrier) = (battery.clone(), barrier.clone());
+            std::thread::spawn(move || {
+                barrier.wait();
+                run_all(&battery, if t % 2 == 0 { 0 } else { t })
+            })
+        })
+        .collect();
+    let results: Vec<Vec<(usize, u64)>> = handles.into_iter().filter_map(|h| h.join().ok()).collect();
+    let sequential = run_all(&battery, 0);
+    for (t, res) in results.iter().enumerate() {
+        for (i, got) in res {
+            rep.inc("cold_start_queries");
+            rep.eval(fnv64(format!("cold|{}|{}", t, i).as_bytes()), true);
+            let want = sequential.iter().find(|x| x.0 == *i).map(|x| x.1).unwrap_or(0);
+            if *got != want {
+                rep.violation(violation("C19", "a query made concurrently as one of the very first searches of the process differs from the same query made sequentially afterwards", J::obj().set("pattern", battery[*i].0.as_str()).set("flags", battery[*i].1.to_string()).set("haystack", battery[*i].2.as_str()).set("thread", t).set("check", "c19"), format!("{:x}", got), format!("{:x}", want)));
+                return;
+            }
+        }
+    }
+    if results.len() != nthreads {
+        rep.violation(violation("C19", "a thread of the cold-start battery panicked", J::obj().set("check", "c19"), "panic".into(), "no panic".into()));
+    }
+}
+
 pub fn run(cfg: &Cfg, rep: &mut Report) {
     static_auto_traits();
     rep.inc("static_send_sync_assertions");
+    if cfg.opt("small").is_none() && cfg.replay.is_none() {
+        cold_start(rep);
+    }
     let fl = |s: &str| Flags::from_str(s);
     let pats: Vec<(&str, Flags)> = vec![
         ("(a+)+b", fl("")), ("(?<=(\\w)\\1)x", fl("i")), ("(a|ab)(c|bcd)(d*)", fl("")), ("\\b\\w+\\b", fl("")), ("(?:(a)|b)*\\1", fl("")), ("[\\q{ab|a}]+", fl("v")), ("k+s", fl("iu")), ("(?=(a))\\1|é", fl("")), ("(x*)*y", fl("")), ("^(?:a{1,3}){2}$", fl("m")),
